@@ -16,7 +16,15 @@ def check(run):
         r2, _ = run.model_check('MC_C10', c2, 'nv_' + nv, expect_violation=[nv], timeout=600)
         if r2['violation'] != nv:
             raise vlib.Infra('vacuous model: %s not reachable' % nv)
-    traces = ctlfam.drive_and_validate(run, 'C10', INV, PROP, n_hist=run.pick(320, 6000), hist_len=run.pick(400, 900))
+    traces = ctlfam.drive_and_validate(run, 'C10', INV, PROP, n_hist=run.pick(160, 6000), hist_len=run.pick(250, 900))
+    # Run mode: RPM monitor and control loop as the two concurrent goroutines of the real controller.Run
+    rtraces = run.drive('TestDriveC10Run', 16, lambda i: dict(VERIF_SEED=run.seed * 1000 + 300 + i, VERIF_N=run.pick(3, 80)), 'c10run',
+                        timeout=3000)
+    rc = vlib.cfg(invariants=['Report', 'C02_NeverBelowMinRun'], properties=['C10_BoundedResponseRun', 'C10_ErrorOnlyAtMaxRun'],
+                  post='TraceAccepted')
+    run.validate('Monitor_Stall', rc, rtraces, 'monstall')
+    run.cov['run_mode_scenarios'] = ctlfam.count_events(rtraces, lambda ln: '"ev":"Begin"' in ln)
+    run.cov['run_mode_stalls_reported'] = ctlfam.count_events(rtraces, lambda ln: '"ev":"CycleEnd"' in ln and '"a":[-1,1,0]' in ln)
     errs = ctlfam.count_events(traces, lambda ln: '"ev":"Cycle"' in ln and '"err":true' in ln)
     raises = ctlfam.count_events(traces, lambda ln: '"ev":"Cycle"' in ln and '"avgm2":1000' in ln and '"raises":0' not in ln)
     polls = ctlfam.count_events(traces, lambda ln: '"ev":"Rpm"' in ln)
@@ -26,7 +34,8 @@ def check(run):
                       'MC_C10: exact smoothing arithmetic x threshold plants x windows x prior averages explored exhaustively '
                       '(bounded response, step-by-step progress, termination in rotation or reported stall); real controllers '
                       '(hwmon/file/cmd) behind threshold/never-turning plants, windows 1..50, prior averages 0..20000 RPM, polls and '
-                      'cycles interleaved; TLC checks the poll bound 12n+2 and the ladder on every recorded step; '
+                      'cycles interleaved in lock-step, and the real controller.Run (RPM monitor and control loop as concurrent goroutines in a '
+                      'bubble) behind the same plants; TLC checks the poll bound 12n+2 and the ladder on every recorded step; '
                       'non-trivial = raises of the request observed',
                       dict(evaluations=polls, distinct_nontrivial=raises, rpm_polls=polls, raises=raises, stalls_reported_at_max=errs),
                       ['bound on polls: 12*rpmRollingWindowSize+2 (covers prior averages up to 160000 RPM)',
